@@ -46,4 +46,36 @@ structure CallSite where
   callee : String
   deriving DecidableEq, Repr, Inhabited
 
+/-- An explicit crash site (C22): a call of `log.Fatal*`, `log.Panic*`, the builtin `panic`, `os.Exit`,
+`syscall.Exit` or `runtime.Goexit`. `idx` is the 0-based ordinal among the crash sites of the same
+top-level declaration, `hash` the hash of the site's guard (innermost enclosing `if` statement or
+`case` clause inside the innermost loop / function literal / declaration, otherwise the statement that
+contains the call), `msg` the first string literal among the arguments ("" when none), `ctx` the hash
+of the whole enclosing declaration. -/
+structure FatalSite where
+  file : String
+  func : String
+  callee : String
+  idx : Nat
+  hash : String
+  msg : String
+  ctx : String
+  deriving DecidableEq, Repr, Inhabited
+
+/-- A crash site (same `file`/`func`/`idx` as its `FatalSite`) that sits in the `default:` clause of an
+expression switch whose tag has the defined type `type`: `covered` = declared constants of the type
+named in the `case` lists of the switch, `declared` = all package-level constants of the type,
+`leaks` = every other way a value of the type comes into being in the pipeline packages (explicit
+conversion of a non-constant, constant with an undeclared value, non-constant arithmetic, undeclared
+zero value). -/
+structure SwitchFact where
+  file : String
+  func : String
+  idx : Nat
+  type : String
+  covered : List String
+  declared : List String
+  leaks : List String
+  deriving DecidableEq, Repr, Inhabited
+
 end TmVerif.Facts
